@@ -1,4 +1,256 @@
-(** C07 — property theorems (statements + [exact] + [Print Assumptions] only). *)
+(** C07 (part a: the merge of a compaction is invisible to readers) — property theorems
+    (statements + [exact] + [Print Assumptions] only), sensitivity witnesses and a non-vacuity
+    example. [key_of e = (ik_user (fst e), ik_seq (fst e))] is the identity of an entry. *)
 From RainVerif Require Import Params.
-From RainVerif.model Require Import Bytes Key Version Lsm LsmSpec.
+From RainVerif.model Require Import Bytes Key Block Table TableSpec Version Lsm LsmSpec.
+From RainVerif.proofs Require Import KeyProofs CompactProofs.
 Open Scope N_scope.
+(** * Part a: the merge with the drop rule preserves every view at or above the oldest snapshot *)
+
+
+Example C07a_key_of_def : forall e : entry, key_of e = (ik_user (fst e), ik_seq (fst e)).
+Proof. reflexivity. Qed.
+
+(** * The sort of the merge *)
+
+Theorem C07a_sort_entries_perm : forall l, Permutation.Permutation (sort_entries l) l.
+Proof. exact sort_entries_perm. Qed.
+Print Assumptions C07a_sort_entries_perm.
+
+Theorem C07a_sort_entries_sorted : forall l,
+  NoDup (map key_of l) -> sorted_entries (sort_entries l) = true.
+Proof. exact sort_entries_sorted. Qed.
+Print Assumptions C07a_sort_entries_sorted.
+
+(** * The output of the merge: strictly sorted, a subset of the inputs, and exactly the entries
+    that are neither shadowed below the smallest snapshot nor obsolete deletion markers *)
+
+Theorem C07a_compact_entries_sorted : forall ss base inputs,
+  NoDup (map key_of (concat inputs)) ->
+  sorted_entries (compact_entries ss base inputs) = true.
+Proof. exact compact_entries_sorted. Qed.
+Print Assumptions C07a_compact_entries_sorted.
+
+Theorem C07a_compact_entries_incl : forall ss base inputs e,
+  In e (compact_entries ss base inputs) -> In e (concat inputs).
+Proof. exact compact_entries_incl. Qed.
+Print Assumptions C07a_compact_entries_incl.
+
+Theorem C07a_compact_entries_NoDup : forall ss base inputs,
+  NoDup (map key_of (concat inputs)) ->
+  NoDup (map key_of (compact_entries ss base inputs)).
+Proof. exact compact_entries_NoDup. Qed.
+Print Assumptions C07a_compact_entries_NoDup.
+
+Theorem C07a_compact_entries_In : forall ss base inputs e,
+  ss < MAX_SEQ ->
+  NoDup (map key_of (concat inputs)) ->
+  (In e (compact_entries ss base inputs) <->
+   In e (concat inputs) /\
+   ~ (exists p, In p (concat inputs) /\ ik_user (fst p) = ik_user (fst e) /\
+                ik_seq (fst e) < ik_seq (fst p) /\ ik_seq (fst p) <= ss) /\
+   (ik_op (fst e) =? OP_DELETE) && (ik_seq (fst e) <=? ss) && base (ik_user (fst e)) = false).
+Proof. exact compact_entries_In. Qed.
+Print Assumptions C07a_compact_entries_In.
+
+(** * What a reader sees depends only on the set of entries *)
+
+Theorem C07a_newest_le_iff : forall es k q e,
+  NoDup (map key_of es) ->
+  (newest_le es k q = Some e <->
+   In e es /\ ik_user (fst e) = k /\ ik_seq (fst e) <= q /\
+   forall e', In e' es -> ik_user (fst e') = k -> ik_seq (fst e') <= q ->
+              ik_seq (fst e') <= ik_seq (fst e)).
+Proof. exact newest_le_iff_nodup. Qed.
+Print Assumptions C07a_newest_le_iff.
+
+Theorem C07a_newest_le_none_iff : forall es k q,
+  newest_le es k q = None <->
+  (forall e', In e' es -> ik_user (fst e') = k -> ik_seq (fst e') <= q -> False).
+Proof. exact newest_le_none_iff. Qed.
+Print Assumptions C07a_newest_le_none_iff.
+
+Theorem C07a_visible_perm : forall es es' q k,
+  NoDup (map key_of es) -> Permutation.Permutation es es' -> visible es q k = visible es' q k.
+Proof. exact visible_perm. Qed.
+Print Assumptions C07a_visible_perm.
+
+(** * Compaction is invisible to every reader at or above the smallest snapshot: deleted keys
+    never reappear, overwritten values never resurface, no live key disappears *)
+
+(** the hypotheses that are needed *)
+Theorem C07a_compact_preserves_visible :
+  forall (ss : N) (base : bytes -> bool) (inputs : list (list entry))
+         (above below : list entry) (q : N) (k : bytes),
+    NoDup (map key_of (above ++ concat inputs ++ below)) ->
+    newer_than above (concat inputs) = true ->
+    (forall u, base u = true -> forall e, In e below -> ik_user (fst e) <> u) ->
+    ss < MAX_SEQ ->
+    ss <= q ->
+    visible (above ++ compact_entries ss base inputs ++ below) q k
+    = visible (above ++ concat inputs ++ below) q k.
+Proof. exact compact_preserves_visible. Qed.
+Print Assumptions C07a_compact_preserves_visible.
+
+(** the weakest form proved: no duplicate identities inside the inputs, identities determine
+    entries over all sources, and the base-level guarantee only for the key that is read *)
+Theorem C07a_compact_preserves_visible_weak :
+  forall (ss : N) (base : bytes -> bool) (inputs : list (list entry))
+         (above below : list entry) (q : N) (k : bytes),
+    NoDup (map key_of (concat inputs)) ->
+    (forall e e', In e (above ++ concat inputs ++ below) ->
+                  In e' (above ++ concat inputs ++ below) -> key_of e = key_of e' -> e = e') ->
+    newer_than above (concat inputs) = true ->
+    (base k = true -> forall e, In e below -> ik_user (fst e) <> k) ->
+    ss < MAX_SEQ ->
+    ss <= q ->
+    visible (above ++ compact_entries ss base inputs ++ below) q k
+    = visible (above ++ concat inputs ++ below) q k.
+Proof. exact compact_preserves_visible_gen. Qed.
+Print Assumptions C07a_compact_preserves_visible_weak.
+
+(** the statement with the full recency chain and the sequence bound of the LSM invariant *)
+Theorem C07a_compact_preserves_visible_full :
+  forall (ss : N) (base : bytes -> bool) (inputs : list (list entry))
+         (above below : list entry) (q : N) (k : bytes),
+    NoDup (map key_of (above ++ concat inputs ++ below)) ->
+    newer_than above (concat inputs) = true ->
+    newer_than (concat inputs) below = true ->
+    newer_than above below = true ->
+    (forall u, base u = true -> forall e, In e below -> ik_user (fst e) <> u) ->
+    Forall (fun e => ik_seq (fst e) < MAX_SEQ) (concat inputs) ->
+    ss < MAX_SEQ ->
+    ss <= q ->
+    visible (above ++ compact_entries ss base inputs ++ below) q k
+    = visible (above ++ concat inputs ++ below) q k.
+Proof. exact compact_preserves_visible_full. Qed.
+Print Assumptions C07a_compact_preserves_visible_full.
+
+(** all hypotheses as decidable checks (what the harness evaluates) *)
+Theorem C07a_compact_preserves_visible_b :
+  forall (ss : N) (base : bytes -> bool) (inputs : list (list entry))
+         (above below : list entry) (q : N) (k : bytes),
+    keys_nodupb (map key_of (above ++ concat inputs ++ below)) = true ->
+    newer_than above (concat inputs) = true ->
+    forallb (fun e => negb (base (ik_user (fst e)))) below = true ->
+    (ss <? MAX_SEQ) = true ->
+    (ss <=? q) = true ->
+    visible (above ++ compact_entries ss base inputs ++ below) q k
+    = visible (above ++ concat inputs ++ below) q k.
+Proof. exact compact_preserves_visible_b. Qed.
+Print Assumptions C07a_compact_preserves_visible_b.
+
+(** * Sensitivity *)
+
+(** [base] claims "nothing older below" although an older put of the key lies below: the dropped
+    deletion marker uncovers it (a deleted key reappears); every other hypothesis holds *)
+Theorem C07_drop_without_base_refuted :
+  exists (ss : N) (inputs : list (list entry)) (above below : list entry) (q : N) (k : bytes),
+    let base := fun _ : bytes => true in
+    NoDup (map key_of (above ++ concat inputs ++ below)) /\
+    newer_than above (concat inputs) = true /\
+    newer_than (concat inputs) below = true /\
+    newer_than above below = true /\
+    Forall (fun e => ik_seq (fst e) < MAX_SEQ) (concat inputs) /\
+    ss < MAX_SEQ /\ ss <= q /\
+    visible (above ++ concat inputs ++ below) q k = None /\
+    visible (above ++ compact_entries ss base inputs ++ below) q k = Some [118].
+Proof. exact drop_without_base_refuted. Qed.
+Print Assumptions C07_drop_without_base_refuted.
+
+(** a reader below the smallest snapshot loses its version; every other hypothesis holds *)
+Theorem C07_snapshot_bound_refuted :
+  exists (ss : N) (base : bytes -> bool) (inputs : list (list entry)) (above below : list entry)
+         (q : N) (k : bytes),
+    NoDup (map key_of (above ++ concat inputs ++ below)) /\
+    newer_than above (concat inputs) = true /\
+    newer_than (concat inputs) below = true /\
+    newer_than above below = true /\
+    (forall u, base u = true -> forall e, In e below -> ik_user (fst e) <> u) /\
+    Forall (fun e => ik_seq (fst e) < MAX_SEQ) (concat inputs) /\
+    ss < MAX_SEQ /\ q < ss /\
+    visible (above ++ concat inputs ++ below) q k = Some [111] /\
+    visible (above ++ compact_entries ss base inputs ++ below) q k = None.
+Proof. exact snapshot_bound_refuted. Qed.
+Print Assumptions C07_snapshot_bound_refuted.
+
+(** the sources above the inputs hold an OLDER put of the key: the dropped deletion marker uncovers
+    it; every other hypothesis holds ([newer_than above inputs] is necessary) *)
+Theorem C07_recency_refuted :
+  exists (ss : N) (base : bytes -> bool) (inputs : list (list entry)) (above below : list entry)
+         (q : N) (k : bytes),
+    NoDup (map key_of (above ++ concat inputs ++ below)) /\
+    newer_than (concat inputs) below = true /\
+    newer_than above below = true /\
+    (forall u, base u = true -> forall e, In e below -> ik_user (fst e) <> u) /\
+    Forall (fun e => ik_seq (fst e) < MAX_SEQ) (concat inputs) /\
+    ss < MAX_SEQ /\ ss <= q /\
+    visible (above ++ concat inputs ++ below) q k = None /\
+    visible (above ++ compact_entries ss base inputs ++ below) q k = Some [118].
+Proof. exact recency_refuted. Qed.
+Print Assumptions C07_recency_refuted.
+
+(** with the sentinel [MAX_SEQ] as smallest snapshot every entry is dropped ([ss < MAX_SEQ] is
+    necessary) *)
+Theorem C07_sentinel_snapshot_refuted :
+  exists (base : bytes -> bool) (inputs : list (list entry)) (q : N) (k : bytes),
+    NoDup (map key_of (concat inputs)) /\
+    Forall (fun e => ik_seq (fst e) < MAX_SEQ) (concat inputs) /\
+    MAX_SEQ <= q /\
+    visible ([] ++ concat inputs ++ []) q k = Some [118] /\
+    visible ([] ++ compact_entries MAX_SEQ base inputs ++ []) q k = None.
+Proof. exact sentinel_snapshot_refuted. Qed.
+Print Assumptions C07_sentinel_snapshot_refuted.
+
+(** * Non-vacuity: three input runs, three keys with several versions, deletion markers, one live
+    snapshot (8) between versions, younger data above and older data below; every hypothesis of
+    [C07a_compact_preserves_visible_full] holds, the merge really drops entries, and readers at
+    every sequence from the snapshot on see the same values before and after *)
+Example C07a_nonvacuous :
+  let k1 : bytes := [107; 1] in
+  let k2 : bytes := [107; 2] in
+  let k3 : bytes := [107; 3] in
+  let P (k : bytes) (s : N) : entry := (mkIKey k s OP_PUT, [s]) in
+  let D (k : bytes) (s : N) : entry := (mkIKey k s OP_DELETE, []) in
+  let above := [P k1 12; D k2 13] in
+  let run1 := [P k1 9; P k2 10; P k3 11] in
+  let run2 := [D k1 6; P k2 7; D k3 8] in
+  let run3 := [P k1 3; D k2 4; P k3 5] in
+  let below := [P k1 1; P k2 2] in
+  let inputs := [run1; run2; run3] in
+  let ss := 8 in
+  let base := fun u => bytes_eqb u k3 in
+  let view es := map (fun q => map (visible es q) [k1; k2; k3]) [8; 9; 10; 11; 12; 13] in
+  NoDup (map key_of (above ++ concat inputs ++ below)) /\
+  newer_than above (concat inputs) = true /\
+  newer_than (concat inputs) below = true /\
+  newer_than above below = true /\
+  (forall u, base u = true -> forall e, In e below -> ik_user (fst e) <> u) /\
+  Forall (fun e => ik_seq (fst e) < MAX_SEQ) (concat inputs) /\
+  ss < MAX_SEQ /\
+  compact_entries ss base inputs = [P k1 9; D k1 6; P k2 10; P k2 7; P k3 11] /\
+  view (above ++ compact_entries ss base inputs ++ below) = view (above ++ concat inputs ++ below) /\
+  view (above ++ concat inputs ++ below) =
+    [[None; Some [7]; None];
+     [Some [9]; Some [7]; None];
+     [Some [9]; Some [10]; None];
+     [Some [9]; Some [10]; Some [11]];
+     [Some [12]; Some [10]; Some [11]];
+     [Some [12]; None; Some [11]]] /\
+  (* below the snapshot the merge is visible, as it may be *)
+  visible (above ++ concat inputs ++ below) 5 k1 = Some [3] /\
+  visible (above ++ compact_entries ss base inputs ++ below) 5 k1 = Some [1].
+Proof.
+  cbv zeta.
+  split; [apply keys_nodupb_sound; vm_compute; reflexivity|].
+  split; [vm_compute; reflexivity|].
+  split; [vm_compute; reflexivity|].
+  split; [vm_compute; reflexivity|].
+  split; [apply base_ok_b; vm_compute; reflexivity|].
+  split; [repeat constructor|].
+  split; [reflexivity|].
+  split; [vm_compute; reflexivity|].
+  split; [vm_compute; reflexivity|].
+  split; [vm_compute; reflexivity|].
+  split; vm_compute; reflexivity.
+Qed.
